@@ -13,9 +13,9 @@ TIMEOUT = 300
 RULE = ("thread programs = ordered pairs over the operation alphabet {to_pandas(), to_pandas(columns=[a]), "
         "to_pandas(filters=..), to_pandas(categories=..), pf[0].to_pandas(), pf[0:2].to_pandas(), "
         "list(iter_row_groups()), head(1), statistics, pickle round trip, dtypes/columns/count} on one shared, "
-        "fresh handle of a 2-row-group, 3-column (int, categorical, string) dataset, plus two threads calling "
+        "fresh handle of a 2-row-group, 4-column (int, two categoricals, string) dataset, plus two threads calling "
         "writer.make_part_file with one shared schema/fmd; all schedules with 0 and 1 preemptions at every source "
-        "line of the traced files (quick: 8 pairs incl. every handle-deriving / memoising operation; thorough: all "
+        "line of the traced files (quick: 9 pairs incl. every handle-deriving / memoising operation; thorough: all "
         "ordered pairs at bound 1, the deriving pairs at bound 2, three threads at bound 1); states = scheduling "
         "points visited, transitions = executions (each a complete run of the real threads); oracle: every call's "
         "result equals its sequential result, no call raises, the shared handle still reads correctly afterwards, "
@@ -27,7 +27,7 @@ ASSUMPTIONS = ["scheduling points at source-line granularity (a switch inside on
 FILES = {"api.py", "schema.py", "core.py", "util.py", "writer.py", "dataframe.py", "converted_types.py", "encoding.py"}
 OPS = ["full", "cols_a", "filters", "categories", "pick0", "slice02", "iter", "head1", "statistics", "pickle", "meta"]
 QUICK_PAIRS = [("pick0", "cols_a"), ("cols_a", "pick0"), ("iter", "full"), ("head1", "filters"),
-               ("statistics", "filters"), ("pickle", "slice02"), ("full", "categories"), ("slice02", "meta")]
+               ("statistics", "filters"), ("pickle", "slice02"), ("full", "categories"), ("categories", "full"), ("slice02", "meta")]
 
 
 def explore(run, tier):
@@ -96,6 +96,9 @@ def dataset():
         d = scratch("c20-%d" % os.getpid())
         df = pd.DataFrame({"a": pd.Series(range(6), dtype="int64"),
                            "c": pd.Categorical(["x", "y", "x", "z", "y", "x"]),
+                           # a second categorical column: to_pandas(categories=["c"]) reads it as plain text, so the
+                           # categories option of one call changes what another call would see if state leaked
+                           "c2": pd.Categorical(["k", "k", "l", "m", "l", "k"]),
                            "s": pd.Series(["s0", None, "s2", "s3", "s4", None], dtype=object)})
         path = os.path.join(d, "t.parquet")
         fastparquet.write(path, df, row_group_offsets=[0, 3], write_index=False, stats=True)
@@ -106,7 +109,14 @@ def dataset():
 
 def canon_df(df):
     from mc import oracles as O
-    return {str(c): O.series_to_list(df[c]) for c in df.columns}
+    # values and the column's dtype (a categorical also by its labels): an option leaking from one call into
+    # another changes the dtype, not the values
+    out = {}
+    for c in df.columns:
+        dt = df[c].array.dtype
+        labels = [O.canon_cell(x) for x in dt.categories.tolist()] if hasattr(dt, "categories") else None
+        out[str(c)] = (repr(O.dtype_kind(dt)), labels, O.series_to_list(df[c]))
+    return out
 
 
 def op_body(op, pf):
